@@ -80,7 +80,10 @@ def tlc(ctx, cwd, spec, cfg, workers=None, timeout=1800, simulate=None, depth=No
     p = subprocess.run(cmd, cwd=cwd, env=env, stdout=subprocess.PIPE, stderr=subprocess.STDOUT, text=True, errors="replace")
     shutil.rmtree(meta, ignore_errors=True)
     for f in glob.glob(os.path.join(cwd, "*_TTrace_*")):
-        os.remove(f)
+        try:  # several TLC runs may share a staging dir (thread pool): another thread may have removed it already
+            os.remove(f)
+        except OSError:
+            pass
     if p.returncode == 124:
         raise Broken("TLC timed out after %ss on %s/%s" % (timeout, spec, cfg))
     r = TlcResult(p.stdout, p.returncode)
